@@ -420,10 +420,10 @@ with loop_iter (fuel : nat) (k : nat) (expr : string) (count : Z) (name : string
   dor r, c3 <- process_events f ks c2;
   let '(ev, b) := r in
   let acc' := (acc ++ ev)%list in let bb' := bb_opt_union bb b in
-  dor stop, c4 <- (match k with 2%nat => eval_cond c3 expr | _ => (Ok false, c3) end);
-  if stop then (Ok (acc', bb'), c4) else
   let it' := (iteration + 1)%Z in
-  if (c_loop_limit (px_cfg c4) <? it')%Z then (Err ELoopLimit, c4)
+  if (c_loop_limit (px_cfg c3) <? it')%Z then (Err ELoopLimit, c3) else
+  dor stop, c4 <- (match k with 2%nat => eval_cond c3 expr | _ => (Ok false, c3) end);
+  if stop then (Ok (acc', bb'), c4)
   else loop_iter f k expr count name step ks it' (f64_add value step) acc' bb' c4
   end
 with gen_for (fuel : nat) (e : el) (kids : option (list node)) (c : pctx) {struct fuel} : R (evs * option bbox) :=
